@@ -39,6 +39,7 @@ import aiofiles
 #
 from .constants import (
     PERMANENT_FLAGS,
+    RESERVED_KEYWORDS,
     SPECIAL_USE_ATTRS,
     SYSTEM_FLAG_MAP,
     SYSTEM_FLAGS,
@@ -92,6 +93,20 @@ def mbox_msg_path(mbox: MH, x: int | str | None = None) -> Path:
     """
     msg_key = "" if x is None else str(x)
     return Path(mbox._path) / msg_key
+
+
+####################################################################
+#
+def check_storable_flags(flags: list[str] | None) -> None:
+    """
+    Raise `No` if any of the flags can not be stored as an MH sequence: its
+    name is one the system flags are stored under, or it contains ':' which
+    is the field separator of the `.mh_sequences` file (a sequence with such
+    a name makes the whole file unreadable.)
+    """
+    for flag in flags or []:
+        if flag in RESERVED_KEYWORDS or ":" in flag:
+            raise No(f"'{flag}' can not be used as a keyword flag")
 
 
 ####################################################################
@@ -1948,6 +1963,7 @@ class Mailbox:
         """
         # Make sure we convert the IMAP flags to the accepted mh sequences.
         #
+        check_storable_flags(flags)
         seqs = flags_to_seqs(flags)
 
         # If `Seen` is *NOT* in the sequences, then we need to add `unseen`
@@ -2528,6 +2544,8 @@ class Mailbox:
 
         if action not in StoreAction:
             raise Bad(f"'{action}' is an invalid STORE action")
+
+        check_storable_flags(flags)
 
         # Build a set of msg keys that are just the messages we want to
         # operate on.
